@@ -7,6 +7,10 @@ PY = '/venv/bin/python -B -m vf.run'
 
 # id -> (engine, category, technique, level text, level_note, design_ref)
 CHECKS = {
+ 'C27': ('VX', 'model_checking',
+         'exhaustive enumeration of access-route sequences over inheritance hierarchies; Python isinstance on creation classes as reference',
+         '5 hierarchies (chain of 3, fork, diamond, int discriminator, explicit str discriminator values) x every sequence of <= 2 (thorough 3) access routes in one fresh session (base-class reference seeds with and without attribute access, Base[pk], Sub[pk], Sub.get, select over every class by generator / Entity.select / select_by_sql, isinstance / not isinstance / isinstance with a tuple inside queries): every object obtained has exactly its creation class, every query over C returns exactly the stored instances of C, Sub[pk] of a non-instance raises ObjectNotFound.',
+         'SQLite only; one stored object per class.', 'DESIGN.md section 3 C27'),
  'C06': ('VX+DM', 'exploration',
          'bounded-exhaustive enumeration of parameter patterns, literal strings/values, LIKE patterns and identifiers; executed on SQLite or lexed under dialect lexical models',
          '(a) all order/repetition patterns of <= 4 (thorough 5) parameter occurrences over 3 keys x 4 AST templates x 5 paramstyles x 4 builders, built by the real SQLBuilder, bound by the PEP 249 binder model and executed on SQLite; (b) every string of length <= 3 (thorough 4) over a quote/backslash/percent/LIKE-metacharacter alphabet plus 68 numeric/date/time/bytes/bool boundary values through Value/SQLiteValue/PGValue/MySQLValue x 5 styles, executed (SQLite) or lexed and decoded (others); (c) every LIKE pattern of length <= 3 (thorough 4) over {% _ ! a} as constant/parameter/column in startswith/endswith/in/not in against all subjects through real queries on SQLite; (d) every name of length <= 2 (thorough 3) over {" ` . space ; a} in 8 schema positions with schema creation + CRUD on SQLite, and quote_name re-lexing per dialect.',
